@@ -45,32 +45,70 @@ pub fn rr_step<S: Src, const N: usize>(s: &mut S) {
     std::mem::forget(lb);
 }
 
-/// Random step from an arbitrary seed < 2^33: returns a member of the set, no overflow, seed' < modulus.
-pub fn rnd_step<S: Src, const N: usize>(s: &mut S) {
-    let seed = s.u64() as usize;
-    s.assume(seed < (1usize << 33));
-    let idx = s.u64() as usize;
-    s.assume(idx < N);
+/// Stub for <Lcg as Iterator>::next in the selection harnesses: an ARBITRARY generator output below the modulus
+/// (that the real `next` only produces such values, without overflow, is the separate obligation `lcg_next`).
+#[cfg(kani)]
+pub fn stub_lcg_next(_l: &mut Lcg) -> Option<u32> {
+    let v: u32 = kani::any();
+    kani::assume((v as usize) < MODULUS);
+    Some(v)
+}
+
+/// Random-mode selection for EVERY generator output: the result is a configured target, nothing panics.
+/// (Compositional: generator output arbitrary in [0, modulus); natively the real generator runs.)
+pub fn rnd_any<S: Src, const N: usize>(s: &mut S) {
+    let seed = s.u32() as usize;
+    // Native replay: the stub's arbitrary output v is the next value drawn; realise it with the real generator by
+    // inverting one LCG step (the modulus 2^31-1 is prime): seed = (v - c) * a^-1 mod m, so that next() == v.
+    #[cfg(not(kani))]
+    let seed = {
+        let _ = seed;
+        let v = (s.u32() as u128) % (MODULUS as u128);
+        let m = MODULUS as u128;
+        let mut inv: u128 = 1;
+        let mut base = (MULT as u128) % m;
+        let mut e = m - 2;
+        while e > 0 {
+            if e & 1 == 1 {
+                inv = inv * base % m;
+            }
+            base = base * base % m;
+            e >>= 1;
+        }
+        (((v + m - (INC as u128 % m)) % m) * inv % m) as usize
+    };
     let mut lb = LoadBalancer {
         targets: targets(N),
         mode: LoadBalancerMode::Random,
-        index: idx,
+        index: 0,
         lcg: Lcg::with_parameters(MODULUS, MULT, INC, seed),
     };
     let t = lb.select_target();
     assert!(t.len() == 3 && which(&t) < N, "C09 random: returns a configured target");
-    let want = (MULT * seed + INC) % MODULUS;
-    assert!(which(&t) == ((want as u32) % (N as u32)) as usize, "C09 random: target = lcg value mod N");
-    let after = Lcg::with_parameters(MODULUS, MULT, INC, want);
-    assert!(lb.lcg == after, "C09 random: generator state advances by one LCG step (seed' < modulus)");
-    assert!(want < MODULUS, "C09 random: seed invariant");
-    assert!(lb.index == idx, "C09 random: round-robin index untouched");
+    assert!(lb.index == 0 && lb.targets.len() == N, "C09 random: index and targets untouched");
     s.reached();
     std::mem::forget(t);
     std::mem::forget(lb);
 }
 
-/// Random step, cheap form (no second copy of the LCG arithmetic): member of the set, no overflow panic.
+/// The generator itself: from any seed < 2^33 (clock seconds on first use; < modulus afterwards) `next` does not overflow
+/// and yields a value below the modulus.
+pub fn lcg_next<S: Src>(s: &mut S) {
+    let seed = s.u64() as usize;
+    s.assume(seed < (1usize << 33));
+    let mut l = Lcg::with_parameters(MODULUS, MULT, INC, seed);
+    let v = l.next();
+    match v {
+        Some(v) => assert!((v as usize) < MODULUS, "C09 lcg: output below the modulus"),
+        None => assert!(false, "C09 lcg: generator never ends"),
+    }
+    // the new state is again a valid seed (< modulus <= 2^33): second step does not overflow either
+    let w = l.next();
+    assert!(w.is_some(), "C09 lcg: second step");
+    s.reached();
+}
+
+/// Random step, real generator (no second copy of the LCG arithmetic): member of the set, no overflow panic.
 pub fn rnd_member<S: Src, const N: usize>(s: &mut S) {
     let seed = s.u64() as usize;
     s.assume(seed < (1usize << 33));
